@@ -140,11 +140,17 @@ impl State for FileState {
                 .with_error_context(|error| format!("{FILE_STATE_PARSE_ERROR} index. {error}"))
                 .map_err(|_| IggyError::InvalidNumberEncoding)?;
             total_size += 8;
-            if entries_count > 0 && index != current_index + 1 {
+            // Entries are numbered from 0 without gaps: a journal whose head was cut off, or with an
+            // entry missing in the middle, is not a history this server has written.
+            let expected_index = if entries_count == 0 {
+                0
+            } else {
+                current_index + 1
+            };
+            if index != expected_index {
                 error!(
                     "State file is corrupted, expected index: {}, got: {}",
-                    current_index + 1,
-                    index
+                    expected_index, index
                 );
                 return Err(IggyError::StateFileCorrupted);
             }
@@ -206,6 +212,10 @@ impl State for FileState {
                 .map_err(|_| IggyError::InvalidNumberEncoding)?
                 as usize;
             total_size += 4;
+            if context_length as u64 > file_size.saturating_sub(total_size) {
+                error!("State file is corrupted, context length: {context_length} exceeds the file size");
+                return Err(IggyError::StateFileCorrupted);
+            }
             let mut context = BytesMut::with_capacity(context_length);
             context.put_bytes(0, context_length);
             reader
@@ -229,6 +239,10 @@ impl State for FileState {
                 .map_err(|_| IggyError::InvalidNumberEncoding)?
                 as usize;
             total_size += 4;
+            if command_length as u64 > file_size.saturating_sub(total_size) {
+                error!("State file is corrupted, command length: {command_length} exceeds the file size");
+                return Err(IggyError::StateFileCorrupted);
+            }
             let mut command = BytesMut::with_capacity(command_length);
             command.put_bytes(0, command_length);
             reader
